@@ -105,6 +105,7 @@ class YieldInjector:
         self.p, self.rng = p, rng
         self.trace, self.last, self.switches = [], None, 0
         self.recent_window = {}
+        self.scratch_budget = {}
         self.active = True
         sys.monitoring.set_events(TOOL, sys.monitoring.events.PY_START)
 
@@ -138,6 +139,10 @@ class YieldInjector:
         with self.lock:
             if w:
                 self.recent_window[tid] = w
+            if w == 'scratch':
+                # the next calls of this thread run on the per-schema scratch context, shared by all threads and not
+                # locked: hand over there with a high probability, whatever the schedule's base rate is
+                self.scratch_budget[tid] = 14
             if self.last is not None and self.last != tid:
                 self.switches += 1
                 if len(self.trace) < 400:
@@ -149,6 +154,10 @@ class YieldInjector:
                         break
             self.last = tid
             do_yield = self.rng.random() < self.p
+            left = self.scratch_budget.get(tid, 0)
+            if left:
+                self.scratch_budget[tid] = left - 1
+                do_yield = do_yield or self.rng.random() < 0.5
         if do_yield:
             time.sleep(0)
 
@@ -259,6 +268,13 @@ def run_threads(spec, res):
     xsd = D.family_xsd(fam, version)
     rng = env.rng_for(PROPERTY, spec['tier'], spec['seed'], fam, version, spec['part'])
     pool = [t for _, t, _ in build_pool(fam, rng)][:10]
+    scratch_docs = []
+    if fam == 'fx':
+        # two small documents whose fixed-value comparisons run on the per-schema scratch context with different
+        # pattern-restricted unions: used by the `scratch` plans below (few keys, many calls)
+        for body in ('<f:u1>07</f:u1>', '<f:u2> 1</f:u2>', '<f:u1> 7</f:u1><f:u2>1 </f:u2>', '<f:d>1.00</f:d><f:s> a b </f:s>'):
+            scratch_docs.append(len(pool))
+            pool.append(f'<f:fx xmlns:f="{D.FX}">{body}</f:fx>')
     seq_schema = cls(xsd)
     baseline = {(op, i): safe(xmlschema, lambda: run_op(xmlschema, seq_schema, op, pool[i])) for op in OPS for i in range(len(pool))}
     seq_globals = globals_sig(seq_schema)
@@ -295,6 +311,11 @@ def run_threads(spec, res):
         plans = []
         for t in range(nthreads):
             ops = OPS[:4] if scenario == 'validators' else OPS
+            if scratch_docs and scenario == 'validators' and (k // 6) % 2 == 0:
+                # every thread decodes the small fixed-value documents strictly, many times
+                plans.append([(sched_rng.choice(('decode_strict', 'decode_strict', 'is_valid')), sched_rng.choice(scratch_docs))
+                              for _ in range(24)])
+                continue
             plans.append([(sched_rng.choice(ops), sched_rng.randrange(len(pool))) for _ in range(4 if scenario == 'build_race' or scenario in LATE else 6)])
         targets = None
         if scenario in LATE:
